@@ -26,7 +26,7 @@ STUBS = ["vp.memfs mounted; the CodeBase is a FakeCodeBase whose member list is 
 ASSUMPTIONS = ["exclusion by pattern / location is abstracted as one membership bit per file (gitignore semantics: C09)",
                "the equivalence of -x and [codebase].exclude is a two-line list concatenation in __main__/tree and is outside the claim",
                "once the bits are decided the real code runs untraced on that leaf"]
-BOUNDS = {"quick": "3 scenarios with 4-5 files (one header outside the root): all 2^files membership patterns x 2 -D bits x two platforms",
+BOUNDS = {"quick": "4 scenarios with 3-5 files (one header outside the root): all 2^files membership patterns x 2 -D bits x two platforms",
           "thorough": "same (exhausted)"}
 EXPLANATION = ("Membership bits and -D bits are symbolic bools exhausted by CrossHair; on every leaf the real finder.find is run with the member "
                "list and with all files, the two attributions and the reference preprocessor's are compared line by line, and get_setmap is "
@@ -73,7 +73,22 @@ def t_forced_excluded(d):
     return files, conf
 
 
-TEMPLATES = {"provider": t_provider, "compiled_excluded": t_compiled_excluded, "forced_excluded": t_forced_excluded}
+def t_angle_provider(d):
+    """an excludable header that provides a macro, reached with the angle form through -I (and, by a bit, with quotes)"""
+    files = {
+        "/r/src/main.c": ["#include <config.h>" if d[1] else '#include "../vendor/config.h"', "#ifdef FAST", "@", "#else", "@", "#endif",
+                          '#include "common.h"'],
+        "/r/src/common.h": ["#ifdef FAST", "@", "#endif", "#include <nested.h>", "#ifdef NESTED", "@", "#endif"],
+        "/r/vendor/config.h": ["#define FAST", "@"],
+        "/r/vendor/nested.h": ["#ifdef X", "#define NESTED", "#endif", "@"],
+        "/r/src/util.c": ["#include <nested.h>", "@"],
+    }
+    conf = {"p": [scen.entry("/r/src/main.c", ["X"] if d[0] else [], ["/r/vendor"])],
+            "q": [scen.entry("/r/src/util.c", [], ["/r/vendor"])]}
+    return files, conf
+
+
+TEMPLATES = {"angle_provider": t_angle_provider, "provider": t_provider, "compiled_excluded": t_compiled_excluded, "forced_excluded": t_forced_excluded}
 
 
 def _setmap_from(attr, counted, members, plats):
@@ -149,7 +164,7 @@ def obligations(tier, known):
 
 
 CLAIM = ("For every subset of excluded files (including compiled files, providers of macros, forced includes and a header outside the root) "
-         "and every -D choice in 3 scenarios, per-line attribution is unchanged and equals the reference preprocessor, and the platform-set "
+         "and every -D choice in 4 scenarios, per-line attribution is unchanged and equals the reference preprocessor, and the platform-set "
          "table loses exactly the excluded files' lines - exhausted by CrossHair.")
-LEVEL_NOTE = ("Trusted: CrossHair/z3 for the enumeration, vp/memfs.py, vp/refs/ref_cpp.py. Bounded: 3 templates, <= 5 files, 2 platforms. "
+LEVEL_NOTE = ("Trusted: CrossHair/z3 for the enumeration, vp/memfs.py, vp/refs/ref_cpp.py. Bounded: 4 templates, <= 5 files, 2 platforms. "
               "Pattern matching and the CLI's -x handling are outside.")
